@@ -201,7 +201,7 @@ class C20(Prop):
         ("lib/python/pyflyby/_autoimp.py", "find_missing_imports"),
         ("lib/python/pyflyby/_autoimp.py", "_find_missing_imports_in_ast"),
     ]
-    quick_cases = 3000
+    quick_cases = 5000
     thorough_cases = 80000
     quick_deadline_s = 50
     thorough_deadline_s = 600
